@@ -10,7 +10,9 @@ VERIF = os.path.dirname(os.path.dirname(os.path.abspath(__file__)))
 REPO = os.environ.get("VERIF_REPO", "/repo")
 SPEC = os.path.join(VERIF, "spec")
 HARNESS = os.path.join(VERIF, "harness")
-EVID = os.path.join(VERIF, "evidence")
+# evidence/<id>.json describes what the check covered on /repo's tree; a run against another tree (VERIF_REPO = a scratch
+# worktree with a seeded change) keeps its evidence next to its replays instead of overwriting it
+EVID = os.path.join(VERIF, "evidence") if REPO == "/repo" else os.path.join(VERIF, "replays", "evidence_other_tree")
 REPLAYS = os.path.join(VERIF, "replays")
 NCPU = os.cpu_count() or 4
 
